@@ -350,3 +350,73 @@ def same(a, b):
     if a != a and b != b:
         return True
     return a == b
+
+
+class HarnessJob:
+    """Plain CBMC harness (assume / assert) over emitted functions: used for 2-safety lemmas
+    (two calls related by a precondition) that a single-function contract cannot express."""
+
+    def __init__(self, check, name, low, roots, harness, nassert, function=None, loc=None, backend='cvc5', timeout=120,
+                 text=None, extra=''):
+        self.check, self.name, self.low, self.roots, self.harness = check, name, low, roots, harness
+        self.nassert, self.backend, self.timeout, self.extra = nassert, backend, timeout, extra
+        self.ob = Ob(name, 'IEEE', function, loc)
+        self.ob.text = text or harness[:1500]
+
+    def run(self):
+        ob = self.ob
+        try:
+            E = cemit.CEmitter(self.low)
+            txt = E.unit(self.roots, extra=self.extra) + self.harness
+            backends = self.backend if isinstance(self.backend, (list, tuple)) else [self.backend]
+            tried = []
+            for be in backends:
+                r = cbmc.verify(txt, os.path.join(self.check.work, 'cbmc'), re.sub(r'[^\w.]+', '_', self.name)[:180],
+                                backend=be, timeout=self.timeout)
+                tried.append('%s:%s:%.1fs' % (be, r.status, r.seconds))
+                if r.status in ('ok', 'failed'):
+                    break
+            ob.seconds, ob.backend, ob.detail = r.seconds, r.backend, ' '.join(tried)
+            asserts = [p for p in r.props if '.assertion' in p[0]]
+            if r.status == 'ok':
+                if len(asserts) < self.nassert:
+                    ob.status, ob.detail = 'error', 'vacuity: %d assertions planned, %d reported' % (self.nassert, len(asserts))
+                else:
+                    ob.status = 'discharged'
+            elif r.status == 'failed':
+                ob.status = 'failed'
+                ob.detail += ' cbmc FAILURE: ' + '; '.join('%s (%s)' % (p[0], p[2][:80]) for p in r.failed()[:5])
+                ob.cex = r.trace
+                self.result = r
+            else:
+                ob.status = 'undecided'
+                ob.detail += ' %s %s' % (r.status, r.note[:300])
+        except Unsupported as e:
+            ob.status, ob.detail = 'error', 'Unsupported: %s' % e
+        except Exception as e:
+            ob.status, ob.detail = 'error', '%s: %s' % (type(e).__name__, e)
+        return ob
+
+    def raw_bits(self, var):
+        log = open(os.path.join(self.check.work, 'cbmc', re.sub(r'[^\w.]+', '_', self.name)[:180] + '.log')).read()
+        m = None
+        for m in re.finditer(r'^  %s=.*\((\{?[01 ,{}]+\}?)\)\s*$' % re.escape(var), log, re.M):
+            pass
+        return m.group(1) if m else ''
+
+    def witness(self, var, t):
+        lts = replay.leaf_types(self.low, t)
+        groups = [g.replace(' ', '') for g in re.split(r'[,{}()]', self.raw_bits(var))]
+        groups = [g for g in groups if g]
+        if len(groups) != len(lts):
+            return None
+        return [bits_value(g, lt) for g, lt in zip(groups, lts)]
+
+
+def write_replay(check, ob, rec):
+    import json
+    d = os.path.join(os.path.dirname(os.path.dirname(check.work)), 'replays')
+    os.makedirs(d, exist_ok=True)
+    path = os.path.join(d, re.sub(r'[^\w.()#,-]+', '_', ob.name)[:200] + '.replay.json')
+    json.dump(rec, open(path, 'w'), indent=1, default=str)
+    return path
